@@ -113,7 +113,7 @@ class AttrMap(delegate_to_widget_mixin("_original_widget"), WidgetDecoration[Wra
     def get_focus_map(self) -> dict[Hashable | None, Hashable] | None:
         # make a copy so ours is not accidentally modified
         # FIXME: a dictionary that detects modifications would be better
-        if self._focus_map:
+        if self._focus_map is not None:
             return dict(self._focus_map)
         return None
 
